@@ -27,10 +27,20 @@
   survivors keep relative order and multiplicity            `exclusion_repaired`, `filterRegex_hosts` (list equalities)
   never CONTACTED / the others are contacted                `excluded_never_contacted` (C03's fan-out LTS imported)
   always terminates whatever the size of the exclusions     `pipeline_terminates`, `pushHostlist_terminates`,
-                                                              `exclusion_file_whole`; FALSE from 2^22 - 1 bytes of
-                                                              ranged exclusion FILE on: `exclusion_file_cut`
-                                                              (F02-XFILE-4MIB, open), `exclusion_file_repaired`;
+                                                              `pushHostlistR_terminates_whole`, `exclusion_file_whole`
+                                                              (the loop of /repo b20e58e: NO ceiling, the entry is the
+                                                              whole text or — from 2^63-1 bytes on — `errx`); the loop
+                                                              as it was before (F02-XFILE-4MIB, FIXED):
+                                                              `exclusion_file_ceiling_whole`, `exclusion_file_cut`;
                                                               unchanged D2: `pushHostlist_unchanged_diverges`
+  a recognisable class of command lines                     `domain_syntactic`, `entry_ok_syntactic`,
+                                                              `exclusion_correct_syntactic` (`SynOk`: a Boolean on the
+                                                              words, computed without the model ⇒ `Domain`, `EntryOk`)
+  rank of a host = its index in the final list              `rank_is_index` (the list OBJECT `cliWordsL`; C01 `iter_all`
+                                                              imported), `contacted_with_rank` (C09 `rank_is_position`
+                                                              and C03's fan-out imported)
+  the driver executes the definitions of the theorems       `fast_path_is_model`, `fast_path_is_cliFinal` (the linear
+                                                              path Opt/ExcludeFast.lean = `cliFinalW`, every input)
   Witnesses (`decide`): D1, F02-2BR end to end through `cliFinal`; instances derived THROUGH the theorems:
   `exclusion_correct_instance`, `exclusion_correct_options_instance`, the examples after each theorem.
 
@@ -38,16 +48,21 @@
 
   NOT proved: `hostlist_filter_regex` for the UNCHANGED `hostlist_remove` (D19: the iterator revisits hosts; the
   test is idempotent; correspondence only — /repo carries the repair); exclusion words whose names have a numeric
-  tail > 2^25 (`SmallName`, F16-BIGSUFFIX at the library level); an exclusion FILE whose ranged text reaches 4 MiB
-  (the model stops with `ub`, the real pdsh is compared with the specification only); that dsh.c refines C03's
-  LTS and that `dsh()` numbers the targets in list order (C03's trace correspondence; C01 `iter_all`); that the
-  text-level reading of the oracle (`Spec.classify`) gives EVERY well-formed word its meaning (`ReadsRight` is a
-  decidable hypothesis of `oracle_is_spec`; the general statement belongs to C01's specification).
+  tail > 2^25 (`SmallName`, F16-BIGSUFFIX at the library level); that dsh.c refines C03's LTS (C03's trace
+  correspondence) and that `dsh()` is the loop `dshThreads` describes (read off dsh.c:1135-1142, checked by the exec
+  observations of the check: `%n` is C09's); `SynOk` ⇒ `Domain` for TWO-bracket words and for names longer than 15
+  characters (there `Domain` stays a per-command-line decidable hypothesis); `SynOk` is stated on the words by meaning
+  (`CW`), the step from the argv TEXT to the words is `oracle_is_spec`'s `ReadsRight` (C01's `Spec.classify`);
+  exclusion FILES in the syntactic class (C10's `targetDomain` asks their ranged text to be < 4095 bytes; the model
+  itself, `exclusion_file_whole`, has no such bound).
 -/
 import PdshVerif.Opt.ExcludeContact
 import PdshVerif.Opt.ExcludeBridge
 import PdshVerif.Opt.ExcludeSyntax
 import PdshVerif.Opt.ExcludeFast
+import PdshVerif.Opt.ExcludeRank
+import PdshVerif.Props.C01
+import PdshVerif.Props.C09
 import PdshVerif.Props.C10
 
 namespace PdshVerif.C02
@@ -367,6 +382,65 @@ example : ∃ ls s, Dsh.Fan.Exec (Dsh.Fan.init .whileWait 1 ["foo1".toList, "bar
   have hd : (Dsh.Fan.run (Dsh.Fan.init .whileWait 1 2) ls).map (·.dpc) = some .returned := by decide
   rw [hs] at hd
   exact Option.some.inj hd
+
+/-! ### the final list as an object: the rank of a host is its index (C02 ∘ C01 ∘ C09 ∘ C03) -/
+/-- RANK = INDEX IN THE FINAL LIST.  Inside `Domain`, `opt_args` leaves in `opt->wcoll` a list OBJECT `L`
+    (`cliWordsL`; `cliWords` is its denotation) that is good and denotes the specification's hosts; `dsh()` walks it
+    with a fresh iterator — C01 `iter_all` imported: `hostlist_next` until NULL hands out exactly `L.hosts`, in order —
+    and numbers the names as they come (`t[i].host`, `t[i].nodeid = i`, `dshThreads`).  Hence thread i is for the i-th
+    host of `targets.filter (· ∉ excluded) |>.filter passes`, and its rank is i: ranks are counted AFTER the exclusions
+    and filters, along the final list -/
+theorem rank_is_index (cfg : Cfg) (hD1 : cfg.fixDeleteAll = true) (hD17 : cfg.fixIterSuffix = true)
+    (hD19 : cfg.fixRemoveDepth = true) (env : Env) (ws : List CW) (hd : Domain cfg env ws) :
+    ∃ L, cliWordsL cfg env (ws.map CW.text) = .ok L ∧ L.Good ∧
+      cliWords cfg env (ws.map CW.text) = .ok L.hosts ∧
+      iterAll cfg L L.nhosts.toNat = specWords env ws ∧
+      dshThreads cfg L = (specWords env ws).zipIdx := by
+  obtain ⟨L, hL, hg, hh⟩ := cliWordsL_correct cfg hD1 hD17 hD19 env ws hd
+  have hit : iterAll cfg L L.nhosts.toNat = specWords env ws := by
+    rw [PdshVerif.C01.iter_all_repaired cfg hD17 L hg _ (by have := hg.2; omega), hh]
+  refine ⟨L, hL, hg, ?_, hit, ?_⟩
+  · rw [cliWords_eq_cliWordsL, hL]
+  · unfold dshThreads
+    rw [hit]
+
+/-- … composed with the transport (C09 `rank_is_position` imported: `connectAll` hands the transport of target k the
+    rank k) and with the fan-out (C03, through `started_nodup_lt`): in EVERY execution, a connect started for list
+    position i goes to the i-th host of the specification's list, with rank i — for every registry of `user@` /
+    `rcmd_type:` words and every configuration of the transports -/
+theorem contacted_with_rank (cfg : Cfg) (hD1 : cfg.fixDeleteAll = true) (hD17 : cfg.fixIterSuffix = true)
+    (hD19 : cfg.fixRemoveDepth = true) (env : Env) (ws : List CW) (hd : Domain cfg env ws)
+    (rcfg : Rcmd.Cfg) (rwords : List Rcmd.Word) (lines : List Rcmd.Line)
+    (v : Dsh.Fan.Variant) (f : Nat) (ls : List Dsh.Fan.Label) (s : Dsh.Fan.St)
+    (he : Dsh.Fan.Exec (Dsh.Fan.init v f (specWords env ws).length) ls s) :
+    ∃ L, cliWordsL cfg env (ws.map CW.text) = .ok L ∧
+      (Rcmd.run rcfg rwords (iterAll cfg L L.nhosts.toNat) = .lines lines →
+        ∀ i ∈ started ls, ∃ (h1 : i < lines.length) (h2 : i < (specWords env ws).length),
+          lines[i].rank = i ∧ lines[i].host = (specWords env ws)[i] ∧
+          (dshThreads cfg L)[i]? = some ((specWords env ws)[i], i)) := by
+  obtain ⟨L, hL, _, _, hit, hth⟩ := rank_is_index cfg hD1 hD17 hD19 env ws hd
+  refine ⟨L, hL, fun hrun i hi => ?_⟩
+  rw [hit] at hrun
+  obtain ⟨hlen, hall⟩ := PdshVerif.C09.rank_is_position rcfg rwords _ lines hrun
+  have hlt : i < (specWords env ws).length := (started_nodup_lt he).2 i hi
+  have h1 : i < lines.length := by omega
+  refine ⟨h1, hlt, (hall i h1 hlt).1, (hall i h1 hlt).2, ?_⟩
+  rw [hth, List.getElem?_zipIdx, List.getElem?_eq_getElem hlt]
+  simp
+
+/-- non-vacuity, through the theorem: the demo command line (`-w foo[1-3],bar -x foo2`, names matching `3` dropped)
+    leaves foo1 with rank 0 and bar with rank 1 — bar is the FOURTH name typed and the second of the final list -/
+example : ∃ L, cliWordsL Cfg.repaired demoEnv (demoWords.map CW.text) = .ok L ∧
+    dshThreads Cfg.repaired L = [("foo1".toList, 0), ("bar".toList, 1)] := by
+  obtain ⟨L, hL, _, _, _, hth⟩ := rank_is_index Cfg.repaired rfl rfl rfl demoEnv demoWords demo_domain
+  refine ⟨L, hL, ?_⟩
+  rw [hth]
+  have : specWords demoEnv demoWords = ["foo1".toList, "bar".toList] := by
+    have h1 := exclusion_correct Cfg.repaired rfl rfl rfl demoEnv demoWords demo_domain
+    rw [demo_correct] at h1
+    exact (Res.ok.inj h1).symm
+  rw [this]
+  rfl
 
 /-! ### the buffer loop of `list_push_hostlist` (D2, F02-XFILE-4MIB) -/
 /-- TERMINATION (the repaired loop of /repo b20e58e, no ceiling): whatever the length of the exclusion text the loop
